@@ -4,8 +4,8 @@
  * structure. The initial medium content is arbitrary in every mode, so each
  * mode is a step from any history of the medium.
  *
- * MODE_ROUNDTRIP  full store -> validate -> fetch
- * MODE_ALTER      full store -> one octet of the region altered -> validate
+ * MODE_ROUNDTRIP  full store -> validate -> fetch -> one octet of the region
+ *                 altered -> validate by a fresh instance
  * MODE_PART       store_part with full 64-bit (offset, length) -> validate -> fetch
  * MODE_FETCHPART  fetch_part with full 64-bit (offset, length)
  * MODE_RESET      persistent_reset
@@ -53,14 +53,12 @@ static void scenario(const struct vp_in *in, uint8_t kind, uint8_t aux)
     for (size_t i = 0; i < N; ++i)
         img[i] = in->image[i];
 
-#if defined(MODE_ROUNDTRIP) || defined(MODE_ALTER)
+#if defined(MODE_ROUNDTRIP)
     c10_current(&cfg, img, &in->sta);
     const uint32_t ref = c10_ref(&cfg, img);
     PersistentAccess rc = persistent_store(&s, img);
-#endif
-
-#if defined(MODE_ROUNDTRIP)
-    VP_ASSERT(rc == PERSISTENT_ACCESS_SUCCESS, "C10.store.succeeds");
+    const bool stored_ok = (rc == PERSISTENT_ACCESS_SUCCESS);
+    VP_ASSERT(stored_ok, "C10.store.succeeds");
     VP_ASSERT(c10_data_is(img), "C10.store.data-on-medium-is-image");
     VP_ASSERT(c10_stored() == ref, "C10.store.checksum-on-medium-is-algorithm-of-image");
     VP_ASSERT(c10_outside_same(in->medium), "C10.store.nothing-outside-region");
@@ -74,19 +72,12 @@ static void scenario(const struct vp_in *in, uint8_t kind, uint8_t aux)
     VP_ASSERT(dst_guards_same(dst, in->dst, N), "C10.fetch.writes-only-n-octets");
     VP_ASSERT(c10_data_is(img) && c10_stored() == ref && c10_outside_same(in->medium),
               "C10.validate-fetch.leave-medium");
-    VP_WITNESS(aux == 0 && cfg.base == 0xfffffff0u && cfg.order == 0, "C10.roundtrip.nobuf.reach");
-#if (KINDS) & 0x0bu
-    VP_WITNESS(!C10_WIDE(kind) && aux == 1, "C10.roundtrip.16bit.reach");
-#endif
-#if (KINDS) & 0x14u
-    VP_WITNESS(C10_WIDE(kind) && aux == 1, "C10.roundtrip.32bit.reach");
-#endif
-    VP_WITNESS(aux == AUXMAX && cfg.order == 1 && cfg.base == 0x1000u, "C10.roundtrip.bigbuf.reach");
-    VP_WITNESS(aux == AUXMID && cfg.init == 0xffffu && !a_lost && m_reads >= 3, "C10.roundtrip.chunked.reach");
+    VP_WITNESS(rc == PERSISTENT_ACCESS_SUCCESS && cfg.base == 0xfffffff0u && cfg.order == 0 && !a_lost &&
+                   m_reads >= 3,
+               "C10.roundtrip.high-placement.reach");
 
-#elif defined(MODE_ALTER)
-    /* the clause is about the state after a successful store */
-    if (rc != PERSISTENT_ACCESS_SUCCESS)
+    /* --- one octet of the stored region (checksum or data) is altered --- */
+    if (!stored_ok) /* the clause is about the state after a successful store */
         return;
     if (in->alt_pos >= m_cs + N || in->alt_val == M[GUARD + in->alt_pos])
         return;
@@ -109,8 +100,8 @@ static void scenario(const struct vp_in *in, uint8_t kind, uint8_t aux)
     rc = persistent_validate(&t);
     if (distinguishes)
         VP_ASSERT(rc == PERSISTENT_ACCESS_INVALID_DATA, "C10.alter.reported-invalid");
-    VP_WITNESS(distinguishes && in->alt_pos >= m_cs && aux == AUXMID, "C10.alter.data.reach");
-    VP_WITNESS(distinguishes && in->alt_pos + 1 == m_cs && aux == 0, "C10.alter.checksum.reach");
+    VP_WITNESS(distinguishes && in->alt_pos + 1 == m_cs + N, "C10.alter.last-data-octet.reach");
+    VP_WITNESS(distinguishes && in->alt_pos + 1 == m_cs, "C10.alter.checksum-octet.reach");
 #if (KINDS) & 0x18u
     VP_WITNESS(!distinguishes && rc == PERSISTENT_ACCESS_SUCCESS && C10_ABSTRACT(kind), "C10.alter.collision.reach");
 #endif
@@ -139,7 +130,6 @@ static void scenario(const struct vp_in *in, uint8_t kind, uint8_t aux)
         VP_ASSERT(m_calls == 0, "C10.store-part.refused-without-medium-access");
         VP_ASSERT(c10_medium_same(in->medium), "C10.store-part.refused-medium-unchanged");
         VP_WITNESS(in->off + in->len <= N, "C10.store-part.wrapping-pair.reach");
-        VP_WITNESS(in->off == N && in->len == 1, "C10.store-part.just-beyond.reach");
     } else {
         VP_ASSERT(rc == PERSISTENT_ACCESS_SUCCESS, "C10.store-part.succeeds");
         VP_ASSERT(c10_data_is(want), "C10.store-part.data-on-medium-is-overlay");
@@ -151,10 +141,9 @@ static void scenario(const struct vp_in *in, uint8_t kind, uint8_t aux)
         rc = persistent_fetch(dst + GUARD, &s);
         VP_ASSERT(rc == PERSISTENT_ACCESS_SUCCESS, "C10.fetch-after-store-part.succeeds");
         VP_ASSERT(c10_same(dst + GUARD, want), "C10.fetch-after-store-part.returns-overlay");
-        VP_WITNESS(in->off > 0 && in->off + in->len == N && aux == AUXMID && !a_lost,
+        VP_WITNESS(in->off == N / 2 && in->len > 0 && in->off + in->len == N && !a_lost,
                    "C10.store-part.tail.reach");
         VP_WITNESS(in->len == 0 && in->off == N, "C10.store-part.empty-at-end.reach");
-        VP_WITNESS(in->off == 0 && in->len == N && aux == AUXMAX, "C10.store-part.full.reach");
     }
 #ifdef VP_REPLAY
     free(src);
@@ -170,7 +159,6 @@ static void scenario(const struct vp_in *in, uint8_t kind, uint8_t aux)
         VP_ASSERT(m_calls == 0, "C10.fetch-part.refused-without-medium-access");
         VP_ASSERT(dst_guards_same(dst, in->dst, 0), "C10.fetch-part.refused-destination-untouched");
         VP_WITNESS(in->off + in->len <= N, "C10.fetch-part.wrapping-pair.reach");
-        VP_WITNESS(in->off == 0 && in->len == N + 1, "C10.fetch-part.just-beyond.reach");
     } else {
         VP_ASSERT(rc == PERSISTENT_ACCESS_SUCCESS, "C10.fetch-part.succeeds");
         bool same = true;
@@ -179,8 +167,7 @@ static void scenario(const struct vp_in *in, uint8_t kind, uint8_t aux)
                 same = false;
         VP_ASSERT(same, "C10.fetch-part.returns-slice");
         VP_ASSERT(dst_guards_same(dst, in->dst, (size_t)in->len), "C10.fetch-part.writes-only-n-octets");
-        VP_WITNESS(in->off == N / 2 && in->len > 0 && in->off + in->len == N && C10_WIDE(kind),
-                   "C10.fetch-part.tail.reach");
+        VP_WITNESS(in->off == N / 2 && in->len > 0 && in->off + in->len == N, "C10.fetch-part.tail.reach");
         VP_WITNESS(in->off == N && in->len == 0, "C10.fetch-part.empty-at-end.reach");
     }
     VP_ASSERT(c10_medium_same(in->medium), "C10.fetch-part.leaves-medium");
@@ -194,9 +181,9 @@ static void scenario(const struct vp_in *in, uint8_t kind, uint8_t aux)
             all = false;
     VP_ASSERT(all, "C10.reset.every-region-octet-is-fill-value");
     VP_ASSERT(c10_outside_same(in->medium), "C10.reset.nothing-outside-region");
-    VP_WITNESS(aux == 0 && C10_WIDE(kind) && in->item == 0xa5, "C10.reset.nobuf-32bit.reach");
-    VP_WITNESS(aux == AUXMAX && cfg.base == 0x12345678u, "C10.reset.bigbuf.reach");
-    VP_WITNESS(aux == AUXMID && kind == 0 && m_writes >= 3, "C10.reset.chunked-default.reach");
+    VP_WITNESS(rc == PERSISTENT_ACCESS_SUCCESS && in->item == 0xa5 && cfg.base == 0x12345678u &&
+                   m_writes >= 2,
+               "C10.reset.reach");
 #else
 #error "no MODE"
 #endif
